@@ -1902,13 +1902,12 @@ class BzrDirMetaFormat1(BzrDirFormat):
         """See BzrDirFormat.get_converter()."""
         if format is None:
             format = BzrDirFormat.get_default_format()
-        if isinstance(self, BzrDirMetaFormat1) and isinstance(
-            format, BzrDirMetaFormat1Colo
-        ):
-            return ConvertMetaToColo(format)
-        if isinstance(self, BzrDirMetaFormat1Colo) and isinstance(
-            format, BzrDirMetaFormat1
-        ):
+        # BzrDirMetaFormat1Colo subclasses BzrDirMetaFormat1: only switch the
+        # metadir flavour when source and target really differ in it, otherwise
+        # the sub formats would never get converted.
+        self_colo = isinstance(self, BzrDirMetaFormat1Colo)
+        format_colo = isinstance(format, BzrDirMetaFormat1Colo)
+        if isinstance(format, BzrDirMetaFormat1) and self_colo != format_colo:
             return ConvertMetaToColo(format)
         if not isinstance(self, format.__class__):
             # converting away from metadir is not implemented
